@@ -133,7 +133,25 @@ func compileStmt(ctx *blockCtx, stmt ast.Stmt) {
 	case *ast.ExprStmt:
 		x := v.X
 		inFlags := checkCommandWithoutArgs(x)
+		stk := ctx.cb.InternalStack()
+		base := stk.Len()
 		compileExpr(ctx, x, inFlags)
+		if e, ok := x.(*ast.ErrWrapExpr); ok && e.Tok == token.QUESTION && e.Default == nil {
+			// expr? is expanded in place and leaves its values (variables) on the
+			// stack: as a statement they are discarded, `_, _ = v1, v2`
+			if n := stk.Len() - base; n > 0 {
+				vals := stk.GetArgs(n)
+				vals = append([]*gogen.Element(nil), vals...)
+				stk.PopN(n)
+				for range vals {
+					ctx.cb.VarRef(nil)
+				}
+				for _, val := range vals {
+					stk.Push(val)
+				}
+				ctx.cb.Assign(n)
+			}
+		}
 	case *ast.AssignStmt:
 		compileAssignStmt(ctx, v)
 	case *ast.ReturnStmt:
